@@ -355,7 +355,47 @@ theorem step_s0_line (orc : Oracle) (m : PM) (f : Frame) (rest : List Frame) (to
     | exact lineOk_reject _ _ _ _
     | exact lineOk_rejectWith _ _ _ _ _
     | (intro _; exact ⟨_, _, rfl, by simp [hd.1]⟩)
-    | (intro _; exact ⟨_, _, rfl, by simp [hd.1, Cfg.setOpts]⟩))
+    | (intro _; exact ⟨_, _, rfl, by simp [hd.1, Cfg.setOpts]⟩)
+    | (intro _; exact ⟨_, _, rfl, by simp [hd.1, Cfg.setFilename, Cfg.setInfo, Cfg.setLine, Cfg.line, Cfg.info]⟩))
+
+/-- `cfg_handle_deprecated` does not touch the frame's file name -/
+theorem handleDeprecated_file (m : PM) (f : Frame) : (handleDeprecated m f).2.cfg.info.filename = f.cfg.info.filename := by
+  unfold handleDeprecated
+  repeat' split
+  all_goals first
+    | rfl
+    | (unfold Cfg.setOpt; rw [updOptAt_info])
+
+/-- **C06 / C13 (fix F38).** When `}` closes a section and parsing goes on, the enclosing context continues on the
+section's line and - when the section has a file name - under that name: a section may be closed in another source
+than it was opened in (an included file that closes it, or one that ends inside it), and what follows must be
+reported in the source it is in.  (Before the fix only the line was handed up, so after `include("f")` with `f` =
+`sec {` the rest of the includer was reported under the name of `f`, and after an `f` that closed the includer's
+section the rest of `f` was reported under the includer's name.) -/
+theorem C06_close_position (orc : Oracle) (m : PM) (f p : Frame) (rest : List Frame) :
+    (step_s0 orc m f (p :: rest) .rbrace).status = .running →
+    ∃ q, (step_s0 orc m f (p :: rest) .rbrace).frames = q :: rest ∧ q.cfg.line = f.cfg.line ∧
+      (∀ fn, f.cfg.info.filename = some fn → q.cfg.info.filename = some fn) := by
+  unfold step_s0
+  have hd := handleDeprecated_line m f
+  have hfile := handleDeprecated_file m f
+  generalize handleDeprecated m f = pr at hd hfile
+  obtain ⟨m1, f1⟩ := pr
+  simp only at hd hfile
+  dsimp only
+  split
+  · intro h; simp at h
+  · split
+    · intro h; simp at h
+    · intro _
+      refine ⟨_, rfl, by simp [hd.1], ?_⟩
+      intro fn hfn
+      rw [← hfile] at hfn
+      cases hc : (writeBack p f1).cfg
+      cases hc1 : f1.cfg
+      rw [hc1] at hfn
+      simp only [Cfg.info] at hfn
+      simp [Cfg.afterSection, Cfg.setInfo, Cfg.info, hfn]
 
 theorem dispatch_line (orc : Oracle) (m : PM) (f : Frame) (rest : List Frame) (tok : Tok) (hm : m.frames = f :: rest) :
     LineOk f.cfg.line
